@@ -261,3 +261,12 @@ Lemma new_address_lost_keystore_refuted :
   run derive0 true false evs_c fresh = ({| s_next := 1; s_rows := [(0, 100%N)]; s_cache := None |}, [100%N]) /\
   snd (run derive0 true true evs_c fresh) = [100; 101]%N.
 Proof. vm_compute. split; reflexivity. Qed.
+
+(* the code as it stands (mem_undo = true) with the mirror variant: shape (a) is gone with the reload (a failed
+   call leaves the keystore, mirror included, as it was), shape (b) — a keystore loaded by an import or at
+   start-up while the child-number read fails — still re-issues child 0 *)
+Lemma new_address_mirror_refuted_mem_undo :
+  snd (run derive0 false true evs_a fresh) = [100; 101; 102; 103]%N /\
+  snd (run derive0 false true evs_b three) = [100]%N /\ s_next (fst (run derive0 false true evs_b three)) = 1 /\
+  snd (run derive0 true true evs_b three) = [103]%N /\ s_next (fst (run derive0 true true evs_b three)) = 4.
+Proof. vm_compute. repeat split; reflexivity. Qed.
